@@ -23,11 +23,11 @@ import ast
 import re
 from typing import Any
 
-from core.loader import AnalysisError, FuncInfo, Repo, calls_in, norm
+from core.loader import AnalysisError, Repo, calls_in, norm
 from core.report import Result
 
 from . import c02_builtins  # noqa: F401  (installs the full interpreter into Explorer)
-from .c02_sym import ANode, App, Cat, Explorer, Inst, Run, Sym, Term, Unsupported, cat, mentions, show, subterms
+from .c02_sym import ANode, App, Cat, Explorer, Inst, Run, Sym, Term, Unsupported, cat, mentions, show
 from .common import reachable_funcs, stmt_of, types_of, where
 
 CONVERTER = "pytestarch.eval_structure_generation.file_import.converter"
@@ -115,8 +115,8 @@ def node(gram: dict, cls: str, tag: str = "", _depth: int = 0, **fields: Any) ->
     return ANode(cls, f, tag)
 
 
-def import_leaf(gram: dict, cls: str, names: list[str], module: Any = None, level: Any = 0) -> ANode:
-    aliases = [node(gram, "alias", name=Sym(n, "str"), asname=Sym(f"{n}_asname", "optstr")) for n in names]
+def import_leaf(gram: dict, cls: str, names: list[str], module: Any = None, level: Any = 0, symbolic: bool = True) -> ANode:
+    aliases = [node(gram, "alias", name=Sym(n, "str") if symbolic else n, asname=Sym(f"{n}_asname", "optstr") if symbolic else None) for n in names]
     extra: dict[str, Any] = {}
     for fname, _typ in gram[cls]:
         if fname == "module":
@@ -220,8 +220,8 @@ def run_r1(repo: Repo, res: Result, gram: dict, col: Collector, leaves: list[str
     def leaf_stmts(tagno: int) -> tuple[list[ANode], list[str]]:
         out, names = [], []
         for i, lc in enumerate(leaves):
-            n = f"name{tagno}_{i}"
-            out.append(import_leaf(gram, lc, [n], module=Sym(f"{n}_module", "str"), level=0))
+            n = f"leaf{tagno}x{i}"  # concrete names: R1 is about the descent, what is done with names is R2 / R3
+            out.append(import_leaf(gram, lc, [n], module=f"{n}pkg", level=0, symbolic=False))
             names.append(n)
         return out, names
 
@@ -249,8 +249,8 @@ def run_r1(repo: Repo, res: Result, gram: dict, col: Collector, leaves: list[str
                     return f"the collector raises {r.raised}"
                 got = r.value
                 for n in names:
-                    if not any(mentions(imp, Sym(n, "str")) or mentions(imp, Sym(f"{n}_module", "str")) for _rec, _a, imp in got):
-                        return f"no record for the import of <{n}>" + (f" below {content[0].cls}" if typ != "stmt*" else "")
+                    if not any(n in show(imp) for _rec, _a, imp in got):
+                        return f"no record for the import of `{n}`" + (f" below {content[0].cls}" if typ != "stmt*" else "")
                 if len(got) != len(names):
                     return f"{len(got)} records for {len(names)} import statements"
         return None
@@ -461,6 +461,10 @@ def run_r2_r3_r4(repo: Repo, res: Result, gram: dict, col: Collector) -> tuple[l
                     sites.setdefault("from", rec.site)
         for u in undecided[:1]:
             res.undecide("C02.R4", f"{key}::{cls} relative anchor", u, wh)
+        odd = [a for r in feasible for a, _v in r.trace if mentions(a, case.S) and not ((a.fn == "in" and a.args[1] == case.S and not mentions(a.args[0], case.S)) or a == App("truthy", (case.S,)))]
+        if odd and any(problems[k] for k in ("consult", "from", "plain")):
+            res.undecide("C02.R3", f"{key}::{cls} conversion", f"the internal-module set is consulted in a way the executor cannot relate to `P.n in internal_modules`: {show(odd[0])}", wh)
+            continue
         new_fallbacks = sorted(x for x in col.fallbacks - before if not any(x.startswith(o + " ") for o in col.opaque))
         if new_fallbacks and any(problems.values()):
             # a helper could only be treated as an uninterpreted function: mismatches with the specification may be artefacts of that
@@ -730,6 +734,8 @@ def run_r5_graph(repo: Repo, res: Result) -> None:
         return
     for u in unknown[:1]:
         res.undecide("C02.R5", key, u, wh)
+    if unknown and not n_edges:
+        return
     ok = n_edges > 0
     res.add("C02.R5", key + " [import edge exists]", ok, f"import edges are added on {n_edges} path(s)" if ok else "no path of the graph construction adds an edge for an import record", wh, nontrivial=False)
     if not ok:
